@@ -160,6 +160,7 @@ class Zombie:
     def __init__(self, sim, func, args, kwds, ctx, q, shared=None, blocked_by=None):
         self.sim = sim
         self.blocked_by = blocked_by
+        self.wake_in = None
         self.label = sim.fault_label(ctx.site, ctx.key)
         self.ctx = ctx
         self.q = q
@@ -336,6 +337,9 @@ class SimAsyncResult:
             z = Zombie(sim, self.func, self.args, self.kwds, ctx, q, shared)
             if pool is not None:
                 pool.occupants.append(z)
+            if f.get("wake_in") and not hang:
+                z.wake_in = f["wake_in"]
+                z.q = 0.0
             if not hang:
                 for _ in range(int(f.get("lines", 0))):
                     z.step(("prestep",))
@@ -833,6 +837,11 @@ def _line_cb(code, line):
             z.park(line)
         return None
     if code in _main_codes and sim.zombies:
+        for zz in sim.zombies:  # zombies held back until the pipeline reaches a named function
+            if zz.wake_in is not None and zz.wake_in == code.co_name and not zz.finished:
+                zz.wake_in = None
+                zz.q = 1.0
+                sim.probes["zombie_woken_in_" + code.co_name] += 1
         sim.sched_point(("line", code.co_name, line))
     return None
 
